@@ -301,13 +301,22 @@ impl Walrus {
             // it was extended to its full size has nothing (or less) to recover.
             let scan_limit = (mmap.len() as u64).min(MAX_FILE_SIZE);
             let mut block_offset: u64 = 0;
+            // Units that were handed out as a block but never written (a writer's initial block
+            // whose first entry did not fit, a failed first append) stay zeroed while later
+            // units of the same file hold data. They must not end the scan; they consumed a
+            // block id, which is accounted for as soon as data is found behind them (trailing
+            // zero units are simply unallocated space and consume nothing).
+            let mut pending_empty_units: usize = 0;
             while block_offset + DEFAULT_BLOCK_SIZE <= scan_limit {
-                // heuristic: if first bytes are zero, assume no more blocks
                 let mut probe = [0u8; 8];
                 mmap.read(block_offset as usize, &mut probe);
                 if probe.iter().all(|&b| b == 0) {
-                    break;
+                    pending_empty_units += 1;
+                    block_offset += DEFAULT_BLOCK_SIZE;
+                    continue;
                 }
+                next_block_id += pending_empty_units;
+                pending_empty_units = 0;
 
                 let mut used: u64 = 0;
                 let mut entries_in_block: u64 = 0;
